@@ -568,3 +568,39 @@ func TestC16KnownF17(t *testing.T) {
 	})
 	stats.For("C16").KnownFinding("F17", reproduced)
 }
+
+// TestC16KnownF31 is the dedicated probe of the open finding F31: a stray
+// sub-directory in a FileSystem Persistence whose name is the file name of a
+// record which does not exist yet (the next identifier of a level). List
+// skips it and AdoptSession is silent, yet every Save of that key fails
+// ("file exists"), the identifier does not advance, and the client refuses
+// every publish of that level from then on. It never fails the run; it
+// reports whether F31 still reproduces.
+func TestC16KnownF31(t *testing.T) {
+	reproduced := false
+	rapid.Check(t, func(rt *rapid.T) {
+		cfg := baseConfig()
+		h0 := newH(rt, "C16", sim.Options{Config: cfg, StoreFlavour: "filesystem"})
+		h0.Shutdown(5 * time.Second)
+		level := byte(rapid.IntRange(1, 2).Draw(rt, "level"))
+		key := map[byte]int{1: 0x8000, 2: 0xc000}[level]
+		n, _ := h0.restart(restartOpts{K: 2, Config: cfg, StoreFlavour: "filesystem", FSMutate: func(dir string) {
+			os.Mkdir(filepath.Join(dir, fmt.Sprintf("%05x", key)), 0o700)
+		}})
+		defer n.Shutdown(5 * time.Second)
+		if n.AdoptPanic != "" {
+			n.Failf("AdoptSession panicked with a stray directory %05x: %s", key, n.AdoptPanic)
+		}
+		if n.Fatal != nil {
+			n.Failf("AdoptSession failed with a stray directory %05x: %v", key, n.Fatal)
+		}
+		n.appStep("first connect of the adopted client")
+		c1 := n.pub(level, false)
+		c2 := n.pub(level, false)
+		n.MustPoll("the publishes returning", func() bool { return n.IsDone(c1) && n.IsDone(c2) })
+		if c1.Err != nil && c2.Err != nil {
+			reproduced = true
+		}
+	})
+	stats.For("C16").KnownFinding("F31", reproduced)
+}
